@@ -233,29 +233,37 @@ fn fmt_source_code_trace(
     printer
         .new_line()
         .with_margin_content(format!["{}", s.line_number])
-        .with_content(highlight_substring(&s.line_content, s.index, s.value.len()))
+        .with_content(highlight_substring(&s.line_content, s.index, s.value.chars().count()))
         .print(f)?;
     printer
         .new_line()
         .with_content(format![
             "{}{} {}",
             " ".repeat(s.index),
-            line_kind.color(&"^".repeat(s.value.len())).bold(),
+            line_kind.color(&"^".repeat(s.value.chars().count())).bold(),
             line_kind.color(annotation).bold(),
         ])
         .print(f)?;
     Ok(())
 }
 
+/// Highlights `length` characters of the line, starting at the character with index `start`.
 fn highlight_substring(line: &str, start: usize, length: usize) -> String {
-    if line.len() < start + length {
+    // The arguments count characters; convert them to byte offsets.
+    let byte_offset = |n: usize| {
+        line.char_indices()
+            .map(|(i, _)| i)
+            .chain(std::iter::once(line.len()))
+            .nth(n)
+    };
+    let (Some(start), Some(end)) = (byte_offset(start), byte_offset(start + length)) else {
         return line.into();
-    }
+    };
     format![
         "{}{}{}",
         &line[..start],
-        (&line[start..start + length]).bold(),
-        line[start + length..].trim_end(),
+        (&line[start..end]).bold(),
+        line[end..].trim_end(),
     ]
 }
 
@@ -280,13 +288,13 @@ fn fmt_source_code_trace_light(
         f,
         "{}  {}",
         prefix,
-        highlight_substring(&s.line_content, s.index, s.value.len())
+        highlight_substring(&s.line_content, s.index, s.value.chars().count())
     )?;
     writeln!(
         f,
         "{}  {} {}",
         " ".repeat(prefix.len() + s.index),
-        line_kind.color(&"^".repeat(s.value.len())).bold(),
+        line_kind.color(&"^".repeat(s.value.chars().count())).bold(),
         annotation,
     )?;
     Ok(())
